@@ -13,11 +13,14 @@ theorem measurable_apply (im : IMass ℝ n) : Measurable (im.apply) := by
   cases im with
   | diag d =>
     refine measurable_pi_lambda _ fun i => ?_
-    exact (measurable_pi_apply i).const_mul (d i)
+    have hi : Measurable fun p : Fin n → ℝ => p i := measurable_pi_apply i
+    exact hi.const_mul (d i)
   | dense m =>
     refine measurable_pi_lambda _ fun i => ?_
     simp only [IMass.apply, sumFin_eq_sum]
-    exact Finset.measurable_sum _ fun j _ => (measurable_pi_apply j).const_mul (m i j)
+    refine Finset.measurable_sum _ fun j _ => ?_
+    have hj : Measurable fun p : Fin n → ℝ => p j := measurable_pi_apply j
+    exact hj.const_mul (m i j)
 
 /-- momentum shear `(q,p) ↦ (q, p + f q)` -/
 theorem shear_snd_preserving (f : Vec ℝ n → Vec ℝ n) (hf : Measurable f) :
@@ -38,7 +41,7 @@ theorem shear_fst_preserving (f : Vec ℝ n → Vec ℝ n) (hf : Measurable f) :
   have hs : MeasurePreserving (Prod.swap : Vec ℝ n × Vec ℝ n → Vec ℝ n × Vec ℝ n)
       (volume.prod volume) (volume.prod volume) := Measure.measurePreserving_swap
   have := (hs.comp (shear_snd_preserving f hf)).comp hs
-  convert this using 1
+  exact this
 
 theorem kick_preserving (g : Vec ℝ n → Vec ℝ n) (hg : Measurable g) (a : ℝ) :
     MeasurePreserving (kick g a) (volume.prod volume) (volume.prod volume) := by
